@@ -32,8 +32,14 @@
 //	                                 handleRequest put the lease into the table and dropped the lease lock, before it
 //	                                 sets up cache entries, QoS, NAT and the Accounting-Start; `… notrun` when the
 //	                                 REQUEST was refused before that point
-//	fault qe|qi|nat on|off           the QoS egress / QoS ingress / subscriber_nat kernel map is kept full: every Put of a
+//	fault qe|qi|nat|sub|cidmap|cid|vlan on|off
+//	                                 the QoS egress / QoS ingress / subscriber_nat / subscriber_pools / circuit_id_map /
+//	                                 circuit_id_subscribers / vlan_subscriber_pools kernel map is kept full: every Put of a
 //	                                 NEW key fails (E2BIG) until `off`; updates of existing keys and deletes work
+//	wfault sub|cidmap|cid on|off     the Loader's handle of that cache map is write-protected: every write through it -
+//	                                 Put and Delete alike - fails until `off` (the handle the Loader holds is swapped,
+//	                                 through the existing SetMapsForVerif hook, for a closed duplicate of the map's file
+//	                                 descriptor; the map itself, which the harness reads back, is untouched)
 //	shutdown                         what Server.Start does when its context is cancelled
 //
 // Observation:  <reply> t=<s> L=<leases> C=<circuit-id index: m<k>.c<j>:<address>:<expiry>> P=<pool bindings> F=<free list, in order> U=<unavailable>
@@ -154,13 +160,14 @@ func initKernel() string {
 	// key/value sizes as declared in bpf/maps.h, bpf/qos_ratelimit.c and bpf/nat44.c (cilium refuses a Put whose
 	// Go value has another binary size)
 	specs := map[string]*ebpf.MapSpec{
-		"sub":    {Type: ebpf.Hash, KeySize: 8, ValueSize: 25, MaxEntries: 4096},
-		"vlan":   {Type: ebpf.Hash, KeySize: 4, ValueSize: 25, MaxEntries: 4096},
+		// the cache maps are small too (`fault sub|cidmap|cid|vlan on`); a run has at most 9 MACs and 27 circuit-ids
+		"sub":    {Type: ebpf.Hash, KeySize: 8, ValueSize: 25, MaxEntries: 32},
+		"vlan":   {Type: ebpf.Hash, KeySize: 4, ValueSize: 25, MaxEntries: 32},
 		"pools":  {Type: ebpf.Hash, KeySize: 4, ValueSize: 28, MaxEntries: 256},
 		"stats":  {Type: ebpf.Array, KeySize: 4, ValueSize: 80, MaxEntries: 1},
 		"cfg":    {Type: ebpf.Array, KeySize: 4, ValueSize: 16, MaxEntries: 1},
-		"cidmap": {Type: ebpf.Hash, KeySize: 8, ValueSize: 8, MaxEntries: 4096},
-		"cid":    {Type: ebpf.Hash, KeySize: 32, ValueSize: 25, MaxEntries: 4096},
+		"cidmap": {Type: ebpf.Hash, KeySize: 8, ValueSize: 8, MaxEntries: 32},
+		"cid":    {Type: ebpf.Hash, KeySize: 32, ValueSize: 25, MaxEntries: 32},
 		// the QoS and NAT maps are small so that they can be filled up (fault injection: `fault qe|qi|nat on`)
 		"qose":   {Type: ebpf.Hash, KeySize: 4, ValueSize: 32, MaxEntries: 16},
 		"qosi":   {Type: ebpf.Hash, KeySize: 4, ValueSize: 32, MaxEntries: 16},
@@ -175,9 +182,22 @@ func initKernel() string {
 		}
 		m[n] = km
 	}
-	kmaps = m
+	// write-protected handles: a duplicate of the map's descriptor that has been closed - every operation on it fails
+	b := map[string]*ebpf.Map{}
+	for _, n := range []string{"sub", "cidmap", "cid"} {
+		c, err := m[n].Clone()
+		if err != nil {
+			return "err kernel-map-clone " + n
+		}
+		c.Close()
+		b[n] = c
+	}
+	kmaps, broken = m, b
 	return ""
 }
+
+// broken: per cache map a handle on which every Put / Delete / Lookup fails (`wfault`)
+var broken map[string]*ebpf.Map
 
 func mapKeys(m *ebpf.Map) [][]byte {
 	var kb, vb []byte
@@ -332,6 +352,22 @@ type run struct {
 	xid    uint32
 	radius bool
 	full   map[string]bool // kernel maps kept full (fault injection)
+	ro     map[string]bool // cache maps whose Loader handle is write-protected (fault injection)
+}
+
+// inject hands the Loader its map handles: the real ones, or the broken ones for write-protected maps
+func (r *run) inject() {
+	h := func(n string) *ebpf.Map {
+		if r.ro[n] {
+			return broken[n]
+		}
+		return kmaps[n]
+	}
+	r.loader.SetMapsForVerif(bngebpf.MapsForVerif{
+		SubscriberPools: h("sub"), VLANSubscriberPools: kmaps["vlan"], IPPools: kmaps["pools"],
+		Stats: kmaps["stats"], ServerConfig: kmaps["cfg"], CircuitIDMap: h("cidmap"),
+		CircuitIDSubscribers: h("cid"),
+	})
 }
 
 func (comp) NewRun() hx.Run { return &run{} }
@@ -355,11 +391,8 @@ func (r *run) init(radiusOn bool, leaseSecs int) string {
 	if err != nil {
 		return "err loader"
 	}
-	loader.SetMapsForVerif(bngebpf.MapsForVerif{
-		SubscriberPools: kmaps["sub"], VLANSubscriberPools: kmaps["vlan"], IPPools: kmaps["pools"],
-		Stats: kmaps["stats"], ServerConfig: kmaps["cfg"], CircuitIDMap: kmaps["cidmap"],
-		CircuitIDSubscribers: kmaps["cid"],
-	})
+	r.loader, r.ro = loader, map[string]bool{}
+	r.inject()
 	pm := dhcp.NewPoolManager(loader, logger)
 	pool, err := dhcp.NewPool(dhcp.PoolConfig{
 		ID: 1, Name: "p", Network: ipOf(0).String() + "/29", Gateway: ipOf(1).String(),
@@ -409,6 +442,7 @@ func (r *run) init(radiusOn bool, leaseSecs int) string {
 	}
 	r.srv, r.pool, r.loader, r.qos, r.nat, r.radius = srv, pool, loader, qm, nm, radiusOn
 	r.full = map[string]bool{}
+	r.ro = map[string]bool{}
 	r.t0 = time.Now()
 	return ""
 }
@@ -464,15 +498,17 @@ func (r *run) send(p *dhcpv4.DHCPv4) string {
 	return "other"
 }
 
-// fillerBase: keys from here on are the harness's own filler entries (a full map), never shown
-const fillerBase = 0xffff0000
+// Filler entries (a full map) are the harness's own and never shown: the last two key bytes are 0xff.  For the 4-byte
+// address keys that is a little-endian value >= 0xffff0000; a MAC key (ebpf.MACToUint64) is below 2^48, a circuit-id key
+// is zero-padded, and no circuit-id of the universe hashes into that range (checked in isFiller's callers' universe).
+func isFiller(k []byte) bool { return len(k) >= 4 && k[len(k)-1] == 0xff && k[len(k)-2] == 0xff }
 
 // fillUp leaves the map without a free slot: a Put of a new key fails (E2BIG), updates and deletes still work
 func fillUp(m *ebpf.Map) {
 	val := make([]byte, m.ValueSize())
-	for i := uint32(0); i < 64; i++ {
-		key := make([]byte, 4)
-		binary.LittleEndian.PutUint32(key, fillerBase+i)
+	for i := 0; i < 64; i++ {
+		key := make([]byte, m.KeySize())
+		key[0], key[len(key)-2], key[len(key)-1] = byte(i), 0xff, 0xff
 		if err := m.Put(key, val); err != nil {
 			return
 		}
@@ -481,7 +517,7 @@ func fillUp(m *ebpf.Map) {
 
 func dropFillers(m *ebpf.Map) {
 	for _, k := range mapKeys(m) {
-		if binary.LittleEndian.Uint32(k) >= fillerBase {
+		if isFiller(k) {
 			_ = m.Delete(k)
 		}
 	}
@@ -499,7 +535,7 @@ func (r *run) topUp() {
 func le32Toks(m *ebpf.Map) []string {
 	var out []string
 	for _, k := range mapKeys(m) {
-		if binary.LittleEndian.Uint32(k) >= fillerBase {
+		if isFiller(k) {
 			continue
 		}
 		out = append(out, ipTokNum(binary.LittleEndian.Uint32(k)))
@@ -551,15 +587,27 @@ func (r *run) snapshot() string {
 	// cache maps
 	var km, kv, kc, kh []string
 	for _, k := range mapKeys(kmaps["sub"]) {
+		if isFiller(k) {
+			continue
+		}
 		km = append(km, macTokKey(binary.LittleEndian.Uint64(k)))
 	}
 	for _, k := range mapKeys(kmaps["vlan"]) {
+		if isFiller(k) {
+			continue
+		}
 		kv = append(kv, "x"+hex.EncodeToString(k))
 	}
 	for _, k := range mapKeys(kmaps["cid"]) {
+		if isFiller(k) {
+			continue
+		}
 		kc = append(kc, cidTokBytes([]byte(strings.TrimRight(string(k), "\x00"))))
 	}
 	for _, k := range mapKeys(kmaps["cidmap"]) {
+		if isFiller(k) {
+			continue
+		}
 		h := binary.LittleEndian.Uint64(k)
 		tok := fmt.Sprintf("x%x", h)
 		for mk := 1; mk <= maxMACs; mk++ {
@@ -924,11 +972,12 @@ func (r *run) Do(op string) string {
 		r.srv.SetRequestGapForVerif(nil)
 		reply = "estgap " + rr + " " + ir
 	case "fault":
-		// fault qe|qi|nat on|off: the QoS egress / QoS ingress / subscriber_nat kernel map has no free slot
+		// fault qe|qi|nat|sub|cidmap|cid|vlan on|off: that kernel map has no free slot
 		if len(f) != 3 || (f[2] != "on" && f[2] != "off") {
 			return "badop"
 		}
-		name := map[string]string{"qe": "qose", "qi": "qosi", "nat": "natsub"}[f[1]]
+		name := map[string]string{"qe": "qose", "qi": "qosi", "nat": "natsub", "sub": "sub", "cidmap": "cidmap",
+			"cid": "cid", "vlan": "vlan"}[f[1]]
 		if name == "" {
 			return "badop"
 		}
@@ -936,6 +985,14 @@ func (r *run) Do(op string) string {
 		if f[2] == "off" {
 			dropFillers(kmaps[name])
 		}
+		reply = "ok"
+	case "wfault":
+		// wfault sub|cidmap|cid on|off: every write through the Loader's handle of that map fails
+		if len(f) != 3 || (f[2] != "on" && f[2] != "off") || broken[f[1]] == nil {
+			return "badop"
+		}
+		r.ro[f[1]] = f[2] == "on"
+		r.inject()
 		reply = "ok"
 	case "shutdown":
 		if len(f) != 1 {
